@@ -257,6 +257,19 @@ func genNodeOp(rt *rapid.T, nm *hx.NodeMachine, cfg genCfg) hx.NOp {
 		kind++
 	}
 	label := fmt.Sprintf("b%d", len(m.Blocks))
+	// a stored child of the state pointer that has not been played: play it now and then (PlayAndRepost with the pool
+	// as it is; otherwise most such blocks are reached by sync / walk, i.e. through Walk)
+	if cfg.WPlay > 0 {
+		var kids []int
+		for _, b := range m.Blocks {
+			if b.Stored && b.Parent == nm.Ptr && b.Idx != 0 {
+				kids = append(kids, b.Idx)
+			}
+		}
+		if len(kids) > 0 && rapid.IntRange(0, 1).Draw(rt, "playkid") == 0 {
+			return hx.NOp{Op: "play", Target: kids[rapid.IntRange(0, len(kids)-1).Draw(rt, "kid")]}
+		}
+	}
 	validStored := func() []int {
 		var out []int
 		for _, b := range m.Blocks {
